@@ -79,7 +79,14 @@ def gen_cases(out, explore):
             # a long-running span that is both the earliest start and the latest end arrives first
             flat = [dict(id=nid, par=None, job=902, name=9, ty=1, st=t0, en=t0 + extent, app=1)] + flat[2:]
             nid += 1
-        cases.append(dict(events=flat, buf=buf, bs=rnd.choice([1, 3, 1000])))
+        vic = [i for i, e in enumerate(flat) if e["par"] is not None and e["par"] >= 900000]
+        if vic and vic[0] >= 4 and rnd.random() < 0.6:
+            # a span stored batches ago is delivered again right next to a span whose parent was never exported
+            flat.insert(vic[0] + rnd.choice([0, 1]), dict(flat[rnd.randrange(2, vic[0] - 1)]))
+        elif rnd.random() < 0.3 and len(flat) > 4:      # a span delivered twice (at-least-once delivery), the copy some batches later
+            i = rnd.randrange(2, len(flat) - 1)
+            flat.insert(rnd.randrange(i + 1, len(flat) + 1), dict(flat[i]))
+        cases.append(dict(events=flat, buf=buf, bs=rnd.choice([1, 2, 3, 1000])))
     return cases
 
 
